@@ -381,7 +381,7 @@ impl Check for C04 {
 
     fn run(&self, p: &Params, tape: &mut Tape, ctx: &mut Ctx) {
         icd::ALLOW_NON_FINITE.with(|a| a.set(true));
-        let opts = StreamOpts { max_msgs: 12, permute_pointers: true, gaps: true, max_gates: 1840, t31_percent: 70 };
+        let opts = StreamOpts { max_msgs: 12, permute_pointers: true, gaps: true, max_gates: 1840, t31_percent: 70, extreme_halfwords: 0 };
         match p.section {
             0 => {
                 let mut s = build_stream(tape, &opts);
